@@ -33,21 +33,16 @@ KNOWN_DIR = os.path.join(VERIF, 'known', 'C11')
 CC_BASE = ['-E', '-undef', '-nostdinc', '-P']
 
 
-def preprocess_all(d, case, want_clang=False):
-    """-> dict with gcc/cppcheck(/clang) results and token lists"""
-    cc = case.cc_args() + [case.main]
-    g = run_cmd(['gcc'] + CC_BASE + cc, cwd=d, env=base_env(), timeout=60)
+def preprocess_both(d, case):
+    """-> (gcc Result, cppcheck Result) for the case written to directory d"""
+    g = run_cmd(['gcc'] + CC_BASE + case.cc_args() + [case.main], cwd=d, env=base_env(), timeout=60)
     c = cppcheck(['-E'] + case.cppcheck_args() + [case.main], cwd=d, timeout=120)
-    out = {'gcc': g, 'cpp': c}
-    if want_clang:
-        out['clang'] = run_cmd(['clang-14'] + CC_BASE + cc, cwd=d, env=base_env(), timeout=60)
-    return out
+    return g, c
 
 
 def judge(ctx, d, case, origin):
-    """run one case; returns a verdict string"""
-    res = preprocess_all(d, case)
-    g, c = res['gcc'], res['cpp']
+    """run one case -> (verdict, reference tokens or None)"""
+    g, c = preprocess_both(d, case)
     if g.timed_out or c.timed_out:
         ctx.inconclusive('watchdog fired on %s' % origin)
         return 'timeout', None
@@ -143,5 +138,5 @@ def run(ctx):
     ctx.assumptions.append('generator exclusions in force: %s' % (
         sorted(k for k, v in ppgen.EXCL.items() if not v[0]) or 'none'))
     replay_known(ctx)
-    n = ctx.n(200, 30000)
+    n = ctx.n(200, 8000)
     pmap(lambda i: _case(ctx, i), range(n), workers=8)
